@@ -121,6 +121,56 @@ def gen_single(rng, w, tour, jid=90, multi_alt=True):
     return {'id': jid, 'places': places, 'dem': dem}
 
 
+def latest_list(c, t):
+    """python twin of the cached latest-arrival values, per activity index (None for the start)"""
+    n = c['n']
+    L = [None] * len(t)
+    for i in range(len(t) - 1, 0, -1):
+        if i == len(t) - 1:
+            L[i] = t[i]['twe']
+        else:
+            L[i] = min(t[i]['twe'], L[i + 1] - c['dur'][t[i]['loc'] * n + t[i + 1]['loc']] - t[i]['svc'])
+    return L
+
+
+def gen_boundary_single(rng, w, tour, jid=90):
+    """single place / single window job whose window edges sit on the decision boundaries of one leg"""
+    c = dict(w)
+    t = full_tour(c, tour)
+    n = w['n']
+    _, _, sched, _ = simulate(c, t)
+    idx = rng.below(leg_count(c, t))
+    loc = rng.below(n)
+    svc = rng.choice([0, 3, 7])
+    arr = sched[idx][1] + w['dur'][t[idx]['loc'] * n + loc]
+    cands = [arr]
+    if idx + 1 < len(t):
+        L = latest_list(c, t)[idx + 1]
+        if L < INF // 2:
+            crit = L - w['dur'][loc * n + t[idx + 1]['loc']] - svc
+            cands += [crit, crit, crit]
+    base = rng.choice(cands)
+    tws = max(0, base + rng.range(-2, 2))
+    twe = max(tws, rng.choice([arr, base, tws]) + rng.range(-2, 3)) if rng.chance(3, 4) else 'inf'
+    # demand near the capacity boundary
+    cap = w['veh']['cap']
+    loads = []
+    load = sum(a['dem'][2] for a in t)
+    for a in t:
+        load += a['dem'][0] + a['dem'][1] - a['dem'][2] - a['dem'][3]
+        loads.append(load)
+    k = rng.below(3)
+    if k == 0:
+        q = max(1, cap - max([0] + loads[:idx + 1]) + rng.range(-1, 1))
+        dem = [0, 0, q, 0]
+    elif k == 1:
+        q = max(1, cap - max(loads[idx:]) + rng.range(-1, 1))
+        dem = [q, 0, 0, 0]
+    else:
+        dem = [0, 0, 0, 0]
+    return {'id': jid, 'places': [{'loc': loc, 'svc': svc, 'tws': [[tws, twe]]}], 'dem': dem}
+
+
 def gen_multi(rng, w, tour, jid=95):
     q = rng.range(1, 6)
     a = gen_single(rng, w, tour, jid * 10 + 1, multi_alt=False)
